@@ -108,7 +108,9 @@ def extract_ctor(src, what, params_rx):
 
 
 BASE_TYPES = ["HashMap<String,Variant>", "List<Variant>", "Array<Variant>", "String", "Variant", "Data", "char", "double",
-              "bool", "int64", "uint64", "int", "uint", "usize"]
+              "bool", "int64", "uint64", "int", "uint", "usize", "Value", "Type"]
+TEMPLATES = set()      # names of the member templates of the class (filled by generate)
+SRC = [""]             # the cleaned header (for the helper definitions inlined on demand)
 KIND_OF = {"HashMap<String,Variant>": 7, "List<Variant>": 8, "Array<Variant>": 9, "String": 10}
 FIELD = {"boolData": ("bool", 1), "doubleData": ("double", 2), "intData": ("int", 3), "uintData": ("uint", 4),
          "int64Data": ("int64", 5), "uint64Data": ("uint64", 6)}
@@ -147,6 +149,8 @@ class P:
                 ptr = 0
                 while self.peek() == "*":
                     self.eat(); ptr += 1
+                if ptr and self.peek() == "const":      # `Data* const p`
+                    self.eat()
                 ref = False
                 if self.peek() == "&":
                     self.eat(); ref = True
@@ -339,6 +343,13 @@ class P:
                 self.eat()
                 name += "::" + self.eat()
             a = ("id", name)
+            if name in TEMPLATES and self.peek() == "<":
+                self.eat("<")
+                ty = self.try_type()
+                if ty is None:
+                    raise Refuse(f"{self.fn}: template argument of `{name}`")
+                self.eat(">")
+                a = ("tid", name, ty)
         else:
             raise Refuse(f"{self.fn}: unexpected token {tok!r}")
         while self.peek() in ("->", ".", "(", "[", "++", "--"):
@@ -357,7 +368,15 @@ class P:
                     f = self.eat()
                     if not re.fullmatch(r"[A-Za-z_]\w*", f):
                         raise Refuse(f"{self.fn}: member name {f!r}")
-                    a = ("mem", a, f, op == "->")
+                    if f in TEMPLATES and self.peek() == "<":
+                        self.eat("<")
+                        ty = self.try_type()
+                        if ty is None:
+                            raise Refuse(f"{self.fn}: template argument of `{f}`")
+                        self.eat(">")
+                        a = ("tmem", a, f, ty, op == "->")
+                    else:
+                        a = ("mem", a, f, op == "->")
             else:
                 raise Refuse(f"{self.fn}: operator `{op}` is outside the translated subset")
         return a
@@ -374,7 +393,122 @@ def parse_body(body, fn):
     st = p.stmts()
     if p.peek() is not None:
         raise Refuse(f"{fn}: trailing tokens at {p.peek()!r}")
-    return st
+    return st if "(helper " in fn else expand(st, fn)
+
+
+
+# ---- private helpers of the class are inlined where they are called ---------------------------------------------------
+KNOWN_CALLS = {"clear", "isNull", "toBool", "toInt", "toUInt", "toInt64", "toUInt64", "toDouble", "toString", "toMap", "toList", "toArray",
+               "String", "ASSERT", "swap", "getType"}
+
+
+def type_text(ty):
+    return ("const " if ty[0] else "") + ty[1] + "*" * ty[2]
+
+
+def find_helper(name):
+    """(template parameter or None, parameter names, body text) of the member function `name`, defined exactly once"""
+    ms = list(re.finditer(r"(?:template\s*<\s*typename\s+(\w+)\s*>\s*)?(?:static\s+)?(?:const\s+)?[\w:]+(?:\s*<[^;{}()]*>)?[\s*&]+" + name +
+                          r"\s*\(([^()]*)\)\s*(?:const\s*)?\{", SRC[0]))
+    if len(ms) != 1:
+        return None
+    m = ms[0]
+    end = balanced(SRC[0], m.end() - 1)
+    params = []
+    for part in [x.strip() for x in m.group(2).split(",") if x.strip()]:
+        pm = re.search(r"(\w+)$", part)
+        params.append(pm.group(1))
+    return m.group(1), params, SRC[0][m.end():end - 1]
+
+
+def subst(e, mp):
+    """replace identifiers by expressions, in expressions and statements"""
+    if isinstance(e, list):
+        return [subst(x, mp) for x in e]
+    if isinstance(e, tuple) and e and isinstance(e[0], str):
+        if e[0] == "id" and e[1] in mp:
+            return ("paren", mp[e[1]])
+        return tuple([e[0]] + [subst(x, mp) for x in e[1:]])
+    if isinstance(e, tuple) and e and isinstance(e[0], list):
+        return tuple(subst(x, mp) for x in e)          # (labels, stmts) of a switch case
+    return e
+
+
+def helper_call(e):
+    """(name, template type or None, object or None, args) when `e` is a call of a member helper"""
+    if e[0] != "call":
+        return None
+    f = strip(e[1])
+    if f[0] == "id":
+        return f[1], None, None, e[2]
+    if f[0] == "tid":
+        return f[1], f[2], None, e[2]
+    if f[0] == "mem" and strip(f[1])[0] == "id" and not f[3]:
+        return f[2], None, strip(f[1])[1], e[2]
+    if f[0] == "tmem" and strip(f[1])[0] == "id" and not f[4]:
+        return f[2], f[3], strip(f[1])[1], e[2]
+    return None
+
+
+def helper_body(call, fn):
+    """the parsed, parameter-substituted body of the helper a call refers to, or None"""
+    hc = helper_call(call)
+    if hc is None:
+        return None
+    name, ty, obj, args = hc
+    if name in KNOWN_CALLS or "::" in name:
+        return None
+    h = find_helper(name)
+    if h is None:
+        return None
+    tparam, params, body = h
+    if (tparam is None) != (ty is None) or len(params) != len(args):
+        raise Refuse(f"{fn}: call of the helper `{name}` does not fit its definition")
+    if tparam is not None:
+        body = re.sub(r"\b" + tparam + r"\b", type_text(ty), body)
+    sts = parse_body(body, f"{fn} (helper {name})")
+    mp = {p: a for p, a in zip(params, args)}
+    if obj is not None:       # the helper runs on another object: its `data` / `_data` are that object's
+        mp["data"] = ("mem", ("id", obj), "data", False)
+        mp["_data"] = ("mem", ("id", obj), "_data", False)
+    return subst(sts, mp)
+
+
+def expand_expr(e, fn, depth=0):
+    if isinstance(e, list):
+        return [expand_expr(x, fn, depth) for x in e]
+    if not (isinstance(e, tuple) and e and isinstance(e[0], str)):
+        return e
+    e = tuple([e[0]] + [expand_expr(x, fn, depth) for x in e[1:]])
+    if e[0] == "call" and depth < 8:
+        b = helper_body(e, fn)
+        if b is not None and len(b) == 1 and b[0][0] == "return" and b[0][1] is not None:
+            return ("paren", expand_expr(b[0][1], fn, depth + 1))
+    return e
+
+
+def expand(sts, fn, depth=0):
+    out = []
+    for st in sts:
+        tag = st[0]
+        if tag in ("expr", "return") and st[1] is not None and strip(st[1])[0] == "call" and depth < 8:
+            b = helper_body(strip(st[1]), fn)
+            if b is not None and not (len(b) == 1 and b[0][0] == "return"):
+                out.append(("block", expand(b, fn, depth + 1)))
+                continue
+        if tag == "block":
+            out.append(("block", expand(st[1], fn, depth)))
+        elif tag == "if":
+            out.append(("if", expand_expr(st[1], fn), expand([st[2]], fn, depth)[0], expand([st[3]], fn, depth)[0]))
+        elif tag == "switch":
+            out.append(("switch", expand_expr(st[1], fn), [(labels, expand(body, fn, depth)) for labels, body in st[2]]))
+        elif tag == "decl":
+            out.append(("decl", st[1], st[2], expand_expr(st[3], fn)))
+        elif tag in ("expr", "return", "delete"):
+            out.append((tag, expand_expr(st[1], fn) if st[1] is not None else None))
+        else:
+            out.append(st)
+    return out
 
 
 # ---- representation functions (over Raw.Obj / Deep.Heap) --------------------------------------------------------------
@@ -407,9 +541,22 @@ class Rep:
                 return "other"
             if k[0] == "newblk":
                 return ("new", e[1])
+            if k[0] == "saved":
+                return ("saved", k[1])
         if e[0] == "cast" and e[1][1] in ("Data", "char") and e[1][2] == 1:
             return self.ptr(e[2], env)
         self.refuse(f"pointer expression {e!r} is outside the translated subset")
+
+    def objof(self, p):
+        """the Lean object through which the pointer `p` ('this' or a saved value of `data`) is dereferenced"""
+        return "this" if p == "this" else f"({{ this with data := {p[1]} }} : Raw.Obj)"
+
+    def is_other_ptr(self, e, env):
+        """`other.data` or a local initialised with it (no dereference, so no check)"""
+        e = strip(e)
+        if e == ("mem", ("id", self.param), "data", False) and self.other == "variant":
+            return True
+        return e[0] == "id" and e[1] in env["locals"] and env["locals"][e[1]][0] == "ptr_other"
 
     def need_other(self, env):
         if self.fn == "operator=(const Variant&)" and not env["distinct"]:
@@ -453,6 +600,8 @@ class Rep:
                     return f"(match Raw.Obj.{e[2]} s this with\n | none => none\n | some {r} => {k(r, env)})"
                 if p == "other":
                     return f"(match Raw.c{e[2]} s {self.param} with\n | none => none\n | some {r} => {k(r, env)})"
+                if p[0] == "saved":
+                    return f"(match Raw.Obj.{e[2]} s {self.objof(p)} with\n | none => none\n | some {r} => {k(r, env)})"
                 self.refuse("reads a field of the new block")
             if base[0] == "id" and base[1] in env["locals"] and env["locals"][base[1]][0] == "desc":
                 return k(f"{env['locals'][base[1]][1]}.{e[2]}", env)
@@ -461,6 +610,10 @@ class Rep:
             if a[0] == "mem" and a[2] == "ref" and a[3] and self.ptr(a[1], env) == "this":
                 r = self.fresh("r")
                 return f"(match Raw.Obj.decr s this with\n | none => none\n | some (s, this, {r}) => {k(r, env)})"
+            if a[0] == "mem" and a[2] == "ref" and a[3] and self.ptr(a[1], env)[0] == "saved":
+                r, q = self.fresh("r"), self.fresh("tq")
+                return (f"(match Raw.Obj.decr s {self.objof(self.ptr(a[1], env))} with\n | none => none\n | some (s, {q}, {r}) => "
+                        f"(let this : Raw.Obj := {{ this with own := {q}.own }};\n {k(r, env)}))")
         self.refuse(f"value expression {e!r} is outside the translated subset")
 
     # -- conditions in CPS -----------------------------------------------------------------------------------------------
@@ -481,6 +634,17 @@ class Rep:
                 def no(en):           # they are distinct: `other` may be read from here on
                     return kf(dict(en, distinct=True)) if eq else kt(dict(en, distinct=True))
                 return f"(if same = true then {yes(env)} else {no(env)})"
+        if e[0] == "bin" and e[1] in ("==", "!=") and self.other == "variant":
+            a, b = strip(e[2]), strip(e[3])
+            if (a == ("id", "data") and self.is_other_ptr(b, env)) or (b == ("id", "data") and self.is_other_ptr(a, env)):
+                if env["cleared"]:
+                    self.refuse("compares `data` with `other.data` after clear()")
+                eq = e[1] == "=="
+                same_k = kt if eq else kf
+                diff_k = kf if eq else kt
+                den = dict(env, distinct=True)
+                return (f"(if same = true then {same_k(env)} else (if Raw.ptrEq this {self.param} = true then {same_k(den)} "
+                        f"else {diff_k(den)}))")
         if e[0] == "bin" and e[1] in ("==", "!=", "<", "<=", ">", ">="):
             op = {"==": "=", "!=": "≠", "<": "<", "<=": "≤", ">": ">", ">=": "≥"}[e[1]]
             return self.nat(e[2], env, lambda a, en: self.nat(e[3], en, lambda b, en2:
@@ -509,10 +673,11 @@ class Rep:
         if tag == "return":
             return self.ret(st[1], env)
         if tag == "delete":
-            if self.ptr(st[1], env) != "this":
+            dp = self.ptr(st[1], env)
+            if dp != "this" and dp[0] != "saved":
                 self.refuse("delete[] of something else than `data`")
             dead = env["dead"]
-            h = f"(match Raw.Obj.free s this with\n | none => none\n | some s => "
+            h = f"(match Raw.Obj.free s {self.objof(dp)} with\n | none => none\n | some s => "
             en = dict(env, dead=[])
             for d in dead:
                 h += f"(match Raw.destroyAll dtor s {d} with\n | none => none\n | some s => "
@@ -568,10 +733,14 @@ class Rep:
             if strip(inner)[0] == "newarr":
                 loc[name] = ("newblk", self.sizeof_kind(strip(inner)[1]), None)
                 return kr(dict(env, locals=loc))
-            if self.ptr(e, env) == "other":
+            if self.is_other_ptr(e, env):
                 loc[name] = ("ptr_other",)
                 return kr(dict(env, locals=loc))
-            self.refuse(f"`Data* {name}` initialised with something else than `other.data` / new char[]")
+            if e == ("id", "data") and not env.get("pending"):
+                pv = self.fresh("p")
+                loc[name] = ("saved", pv)
+                return f"(let {pv} : Raw.DPtr := this.data;\n {kr(dict(env, locals=loc))})"
+            self.refuse(f"`Data* {name}` initialised with something else than `data` / `other.data` / new char[]")
         if ty[1] == "Data" and ty[2] == 0 and not ty[3]:
             if e[0] == "deref" and self.ptr(e[1], env) == "other":
                 d = self.fresh("d")
@@ -597,6 +766,7 @@ class Rep:
     def hoisted(self, rest):
         """the constants `data->type = K; data->ref = N;` that initialise the new block later in the block"""
         found = {}
+        names = ("data",) + tuple(n for n in (getattr(self, "_newname", None),) if n)
         def walk(sts):
             for s in sts:
                 if s[0] == "block":
@@ -605,7 +775,7 @@ class Rep:
                     e = strip(s[1])
                     if e[0] == "assign":
                         l = strip(e[1])
-                        if l[0] == "mem" and l[3] and strip(l[1]) == ("id", "data") and l[2] in ("type", "ref"):
+                        if l[0] == "mem" and l[3] and strip(l[1])[0] == "id" and strip(l[1])[1] in names and l[2] in ("type", "ref"):
                             c = self.const_of(e[2])
                             if c is None or l[2] in found:
                                 self.refuse("initialisation of the new block is not a constant / is repeated")
@@ -654,10 +824,10 @@ class Rep:
             self.refuse(f"call {f!r} is outside the translated subset")
         if e[0] == "dtor":
             p, kind = self.payptr(e[1], env)
-            if p != "this" or e[2][1] not in KIND_OF or KIND_OF[e[2][1]] != kind:
+            if (p != "this" and p[0] != "saved") or e[2][1] not in KIND_OF or KIND_OF[e[2][1]] != kind:
                 self.refuse("destructor call on something else than the payload of `data`")
             d = self.fresh("dead")
-            return (f"(match Raw.Obj.detach s this {kind} with\n | none => none\n | some {d} => "
+            return (f"(match Raw.Obj.detach s {self.objof(p)} {kind} with\n | none => none\n | some {d} => "
                     f"{kr(dict(env, dead=env['dead'] + [d]))})")
         if e[0] == "pnew":
             p, kind = self.payptr(e[1], env)
@@ -671,6 +841,7 @@ class Rep:
                 name = p[1]
             else:
                 self.refuse("placement new into something else than the new block")
+            self._newname = name
             init = self.hoisted(rest)
             pc, nb = self.fresh("pc"), self.fresh("nb")
 
@@ -716,6 +887,11 @@ class Rep:
                 if env.get("data_new") and env.get("init") and self.const_of(r) == env["init"][l[2]]:
                     return kr(env)
                 self.refuse(f"`data->{l[2]} = …` outside the initialisation of a new block")
+            if l[0] == "mem" and l[3] and strip(l[1])[0] == "id" and l[2] in ("type", "ref") and \
+                    env["locals"].get(strip(l[1])[1], ("",))[0] == "newblk":
+                if env["locals"][strip(l[1])[1]][2] is not None and env.get("init") and self.const_of(r) == env["init"][l[2]]:
+                    return kr(env)         # initialisation of the new block through its own pointer: hoisted to the allocation
+                self.refuse(f"`{strip(l[1])[1]}->{l[2]} = …` outside the initialisation of a new block")
             # _data = …
             if l == ("id", "_data"):
                 if r[0] == "deref" and self.ptr(r[1], env) == "other":
@@ -856,6 +1032,9 @@ class Coe:
                         return r
             elif st[0] == "return":
                 return st[1]
+            elif st[0] == "decl" and (st[1][0] or st[1][3]) and st[1][2] == 0:
+                # a const local / reference of a const member: an alias of its initialiser
+                return self.find_return(subst(sts[i + 1:], {st[2]: st[3]}), tag)
             else:
                 self.refuse(f"statement {st[0]} in a read-only member")
         return None
@@ -908,8 +1087,12 @@ class Coe:
                 return ("x", "str", False)
         if e[0] == "call":
             f = strip(e[1])
-            if f[0] == "mem" and f[3] and not e[2] and tag == 10:
+            if f[0] == "mem" and not e[2] and tag == 10:
                 c = strip(f[1])
+                if not f[3] and c[0] == "deref":      # `(*p).m()` for `p->m()`
+                    c = strip(c[1])
+                elif not f[3]:
+                    c = ("none",)
                 if c[0] == "cast" and c[1][1] == "String" and c[1][2] == 1 and self.is_payload(c[2]):
                     m = {"toBool": ("(strToBool x)", "bool"), "toInt": ("(wrapS 32 (strtol x))", "int"),
                          "toUInt": ("(wrapU 32 (strtoul x))", "uint"), "toInt64": ("(strtol x)", "int64"),
@@ -1102,6 +1285,8 @@ class Eq(Coe):
                 return self.walk([s for s in body if s[0] != "break"] + rest, tag)
             if st[0] == "return":
                 return self.value(st[1], tag)
+            if st[0] == "decl" and (st[1][0] or st[1][3]) and st[1][2] == 0:
+                return self.walk(subst(rest, {st[2]: st[3]}), tag)
             self.refuse(f"statement {st[0]} in operator==")
         self.refuse(f"no return for tag {tag}")
 
@@ -1203,6 +1388,9 @@ SCALARS = [("Bool", "bool", "Bool"), ("Double", "double", "Nat"), ("Int", "int",
 
 def generate(repo):
     src = clean((Path(repo) / "include/nstd/Variant.hpp").read_text())
+    SRC[0] = src
+    TEMPLATES.clear()
+    TEMPLATES.update(re.findall(r"template\s*<\s*typename\s+\w+\s*>\s*(?:static\s+)?[^;{}()]*?(\w+)\s*\(", src))
     enum = enum_of(src)
     rep = []
     rep.append(("clear", "(dtor : Heap → Cell → Option Heap) (s : Heap) (this : Raw.Obj) : Option (Heap × Raw.Obj)",
